@@ -267,8 +267,13 @@ pub trait Digest: Sized {
     fn update<B: AsBytes>(&mut self, data: B) ensures final(self).msg() == old(self).msg() + data.bytes();
     fn clone(&self) -> (r: Self) ensures r.msg() == self.msg();
     fn finalize(self) -> (r: GenericArray<u8, Self::OutputSize>) ensures r@ == Self::h(self.msg());
-    /// hash output lengths: 32, 48 or 64 for every supported suite; voprf demands < 256
-    proof fn lemma_hash_len() ensures wf_len::<Self::OutputSize>(), 0 < Self::OutputSize::n() <= 255;
+    /// hash output lengths: 32, 48 or 64 for every supported suite (assumed: at least 32); voprf demands < 256
+    proof fn lemma_hash_len() ensures wf_len::<Self::OutputSize>(), 32 <= Self::OutputSize::n() <= 255;
+    /// output lengths of the primitives
+    proof fn lemma_expand_len(prk: Seq<u8>, info: Seq<u8>, len: nat) ensures Self::expand(prk, info, len).len() == len;
+    proof fn lemma_h_len(m: Seq<u8>) ensures Self::h(m).len() == Self::OutputSize::n();
+    proof fn lemma_hmac_len(k: Seq<u8>, m: Seq<u8>) ensures Self::hmac(k, m).len() == Self::OutputSize::n();
+    proof fn lemma_extract_len(s: Seq<u8>, i: Seq<u8>) ensures Self::extract(s, i).len() == Self::OutputSize::n();
 }
 pub trait Hash: Digest {}
 pub type Output<D> = GenericArray<u8, <D as Digest>::OutputSize>;
@@ -424,6 +429,8 @@ pub mod voprf {
         fn serialize_elem(elem: Self::Elem) -> (r: GenericArray<u8, Self::ElemLen>) ensures r@ == Self::ser_elem(elem);
         fn identity_elem() -> (r: Self::Elem) ensures r == Self::identity();
         fn serialize_scalar(s: Self::Scalar) -> (r: GenericArray<u8, Self::ScalarLen>) ensures r@ == Self::ser_scalar(s);
+        proof fn lemma_ser_elem_len(e: Self::Elem) ensures Self::ser_elem(e).len() == Self::ElemLen::n();
+        proof fn lemma_ser_scalar_len(s: Self::Scalar) ensures Self::ser_scalar(s).len() == Self::ScalarLen::n();
         proof fn lemma_group_lens() ensures wf_len::<Self::ElemLen>(), wf_len::<Self::ScalarLen>(), 0 < Self::ElemLen::n() <= 255, 0 < Self::ScalarLen::n() <= 255;
         /// (e * a) * b == (e * b) * a ; (e * r) * r^-1 == e for r != 0   [group law, assumed]
         proof fn lemma_smul_comm(e: Self::Elem, a: Self::Scalar, b: Self::Scalar)
@@ -611,6 +618,8 @@ pub trait KeGroup: Sized {
             r is Ok ==> Some(r->Ok_0) == Self::de_sk(bytes@),
             r is Err ==> r->Err_0 == InternalError::<Infallible>::PointError;
 
+    proof fn lemma_ser_pk_len(pk: Self::Pk) ensures Self::ser_pk(pk).len() == Self::PkLen::n();
+    proof fn lemma_ser_sk_len(sk: Self::Sk) ensures Self::ser_sk(sk).len() == Self::SkLen::n();
     proof fn lemma_kg_lens() ensures wf_len::<Self::PkLen>(), wf_len::<Self::SkLen>(), 0 < Self::PkLen::n() <= 255, 0 < Self::SkLen::n() <= 255;
     /// [group law, assumed] DH symmetry
     proof fn lemma_dh_sym(a: Self::Sk, b: Self::Sk) ensures Self::dh(Self::pk_of(a), b) == Self::dh(Self::pk_of(b), a);
@@ -644,10 +653,15 @@ pub trait SecretKey<KG: KeGroup>: Clone + Sized {
     fn public_key(&self) -> (r: Result<PublicKey<KG>, InternalError<Self::Error>>) ensures r == self.pk_res();
     fn serialize(&self) -> (r: GenericArray<u8, Self::Len>) ensures r@ == self.ser();
     fn deserialize(input: &[u8]) -> (r: Result<Self, InternalError<Self::Error>>) ensures r == Self::de_res(input@);
-    /// an external key's `clone` denotes the same key [assumed for foreign implementations]
-    proof fn lemma_clone(a: Self, b: Self) requires cloned(a, b) ensures a == b;
     proof fn lemma_sk_len() ensures wf_len::<Self::Len>();
 }
+
+/// `Clone::clone` of an externally held key (a generic `S: SecretKey`) denotes the same key.  Only brought into scope
+/// (broadcast use) by functions that clone a generic `S`; all other clones are the R12-generated field-wise ones.
+pub broadcast proof fn axiom_clone_is_identity<T: Clone>(a: &T, b: T)
+    requires #[trigger] call_ensures(T::clone, (a,), b)
+    ensures *a == b
+{ admit(); }
 
 /// key-stretching function (anchor: src/ksf.rs); `hash` is a function of (self, input)
 pub trait Ksf: Default + Sized {
